@@ -593,6 +593,7 @@ type FuncSpec struct {
 	Implements string
 	CallSpecs  map[string]string // callee value name -> funcspec name
 	Unroll     int
+	GoSequential bool // `gosequential`: go statements are executed as calls at the spawn point (A-CONC-FJ)
 }
 
 type DefineSpec struct {
@@ -649,7 +650,7 @@ var specKeywords = map[string]bool{
 	"func": true, "requires": true, "ensures": true, "modifies": true, "loop": true, "arith": true, "define": true,
 	"smt": true, "axiom": true, "lemma": true, "type": true, "interface": true, "method": true, "funcspec": true,
 	"ghost": true, "at": true, "use": true, "trusted": true, "inline": true, "invariant": true, "note": true,
-	"pure": true, "nosafety": true, "implements": true, "callspec": true, "package": true, "unroll": true,
+	"pure": true, "gosequential": true, "nosafety": true, "implements": true, "callspec": true, "package": true, "unroll": true,
 }
 
 // loadSpecFile parses one contract file. pkg is the default package key ("" for lib files, which
@@ -826,6 +827,8 @@ func (ss *SpecSet) loadSpecFile(path, pkg string) error {
 			if rest != "" {
 				curF.Notes = append(curF.Notes, "trusted: "+rest)
 			}
+		case "gosequential":
+			curF.GoSequential = true
 		case "inline":
 			curF.Inline = true
 		case "pure":
